@@ -13,12 +13,15 @@ pub struct SimSpec {
     pub quiescence_memory: bool,
 }
 
-pub const MEMS_LARGE: &[usize] = &[200_000, 5 * 1024 * 1024, 60_000];
+// budgets from 'a few messages' to 'practically unlimited' (4 GiB)
+pub const MEMS_LARGE: &[usize] = &[200_000, 5 * 1024 * 1024, 60_000, u32::MAX as usize];
 pub const MEMS_SMALL: &[usize] = &[3_000, 5_000, 8_000, 16_000, 64_000];
-pub const BUDGETS_WIDE: &[u64] = &[60_000, 1_200, 2_400, 6_000, 20_000, 1_000_000];
+pub const BUDGETS_WIDE: &[u64] = &[60_000, 1_200, 2_400, 6_000, 20_000, 1_000_000, 1 << 40];
 pub const BUDGETS_BIG: &[u64] = &[60_000, 20_000_000];
-pub const RESENDS: &[u64] = &[100, 20, 50, 300, 400];
-pub const DTS: &[u64] = &[16, 1, 50, 99, 100, 101, 250, 400, 1000, 3500];
+// resend_time zero is legal: everything unacknowledged is due again at every flush
+pub const RESENDS: &[u64] = &[100, 20, 50, 300, 400, 0, 1];
+// update(0) is legal, and so is a tick far longer than the 3 s horizons
+pub const DTS: &[u64] = &[16, 1, 50, 99, 100, 101, 250, 400, 1000, 3500, 0, 10_000];
 pub const DELAYS: &[u64] = &[30, 120, 400, 1000, 3100];
 
 pub fn default_ops() -> OpSpec {
